@@ -87,14 +87,14 @@ def gen_write_op(rng, model, prof):
         op["p"] = gen.gen_point(rng, prof.meas, prof.allow_no_time, extra_meas=prof.extra_meas, extra_tag_vals=prof.extra_tag_vals)
         if not via_h and rng.random() < 0.15:
             op["m"] = rng.choice(names)
-        if rng.random() < 0.3:
+        if rng.random() < 0.3 and not via_h:
             op["compact"] = True
     elif kind == "insert_multiple":
         k = min(rng.choice([0, 1, 2, 3]), MAX_ROWS - n)
         op["ps"] = [gen.gen_point(rng, prof.meas, prof.allow_no_time, extra_meas=prof.extra_meas, extra_tag_vals=prof.extra_tag_vals) for _ in range(k)]
         if not via_h and rng.random() < 0.15:
             op["m"] = rng.choice(names)
-        if rng.random() < 0.3:
+        if rng.random() < 0.3 and not via_h:
             op["compact"] = True
     elif kind == "update":
         op["q"] = targeted_query(rng, model, prof.query_opts)
